@@ -37,7 +37,10 @@ HEADER_SETS = [[], ["X-Name: Value"], ["X-A:1", " X-B : v:1 "], ["X-Tab:\tT ", "
                # the same header name twice (and once more in another case): every --header must reach the server
                ["X-Feature: alpha", "X-Feature: beta", "x-feature: gamma", "X-Other: 1"],
                # commas, semicolons, equals signs and quotes belong to the value
-               ["X-List: a,b,c", "Cookie: a=1; b=\"2,3\"", "X-Comma: ,x,"]]
+               ["X-List: a,b,c", "Cookie: a=1; b=\"2,3\"", "X-Comma: ,x,"],
+               # whitespace other than blanks and tabs around name and value (a YAML block scalar, `printf '...\n'`, CRLF from a file):
+               # "trimmed" means trimmed
+               ["X-Token: abc\n", "X-Crlf: v1\r\n", "\nX-Lead: \n v2 \n", "X-Feed:\x0cv3\x0c"]]
 BAD_HEADERS = ["X-Name Value", ": Value", "X Name: Value", "X\tName: Value", ":", "   : v",
                # no colon at all, although what is there would make a fine header name
                "X-Api-Key", "Authorization", " XName ", "X-Name=Value"]
